@@ -858,6 +858,12 @@ def main():
         extra_out["harness_errors"] = harness_errors[:5]
     if interp_note or extra_note:
         extra_out["note"] = "; ".join(x for x in (interp_note, extra_note) if x)
+    # get_root_aabb() of a tree without insertions raises IndexError (plain Python, same with and without the JIT).  The property
+    # speaks of the box query and the tree-vs-tree query; a root box of an empty tree does not exist, so raising is not a violation.
+    # Reported as information, not as a failure (an earlier version of this harness raised a false alarm here).
+    info_only = [f for f in failures if f["contract"] == "aabb_tree.AabbTree.get_root_aabb[history=empty]" and f["obligation"] == "no_exception"]
+    failures = [f for f in failures if f not in info_only]
+    extra_out["info_root_aabb_of_empty_tree_raises"] = len(info_only)
     C.emit(t0, evals, nontriv, rule, pick, failures, domain, **extra_out)
 
 
